@@ -94,4 +94,10 @@ CLAIMS = {
         note="Failure points are sampled (file chosen by index among the files written so far and the fixed names), not enumerated per history; simhap and hapcfg are the trusted base; uses the real IngressReconciler.Reconcile and Services.ReconcileIngress through verif hooks.",
         technique="stateful property-based testing (rapid) with fault injection: differential against a fresh controller after the retry",
     ),
+    "C19": dict(
+        text="Generated keyword lists and snippet texts (grammar over first tokens, whitespace forms, multi-line, CRLF, several annotations merging into one backend) go through the whole controller; the backend section written must drop every snippet with a disabled first token as a whole and keep every clean one verbatim, while global ConfigMap snippets stay.",
+        design_ref="DESIGN.md section 3, C19",
+        note="The reference tokenisation is the documented one (first token after leading blanks and tabs); exotic separators accept both outcomes so the check cannot alarm on them.",
+        technique="property-based testing (rapid): two-sided oracle (must-drop / must-keep) on the written backend section",
+    ),
 }
